@@ -132,7 +132,7 @@ def model_decision(req, inst, rec, allow):
     return f"=={req}", req, req
 
 
-def run_install(pkgs, allow, runs=2):
+def run_install(pkgs, allow, runs=2, installer_fails=False):
     """pkgs: list of (name, req, inst, rec).  Executes install_requirements `runs` times; returns per-run observations."""
     import asyncio
 
@@ -163,6 +163,10 @@ def run_install(pkgs, allow, runs=2):
 
         async def fake_process(hass, domain, reqs):
             calls.append(list(reqs))
+            if installer_fails:
+                from homeassistant.requirements import RequirementsNotFound
+
+                raise RequirementsNotFound(domain, list(reqs))
             for r in reqs:
                 if "==" in r:
                     n, v = r.split("==")
@@ -232,6 +236,55 @@ def check_install(pkgs, allow):
     return None, obs
 
 
+def check_install_failure(pkgs, allow):
+    """The installer refuses the batch: nothing was installed, so the installed-by-pyscript record may not gain or change any entry,
+    and a second run asks for the same installation again."""
+    obs = run_install(pkgs, allow, installer_fails=True)
+    rec0 = {p[0]: p[3] for p in pkgs if p[3] is not None}
+    env0 = {p[0]: p[2] for p in pkgs if p[2] is not None}
+    o1, o2 = obs
+    if o1["env"] != env0:
+        return {"kind": "failed-install-changed-environment", "expected": env0, "observed": o1["env"]}, obs
+    for n, v in o1["record"].items():
+        if rec0.get(n) != v:
+            return {"kind": "failed-install-recorded", "expected": rec0, "observed": o1["record"]}, obs
+    if o1["installer"] and o2["installer"] != o1["installer"]:
+        return {"kind": "failed-install-not-retried", "expected": o1["installer"], "observed": o2["installer"]}, obs
+    return None, obs
+
+
+def check_record_survives_yaml_import():
+    """The installed-by-pyscript record lives in the config entry; a reload (which re-imports the YAML configuration, changed or
+    not) must keep it, for an entry that was created from YAML."""
+    from mc.world import World
+
+    out = []
+    for change in ("same", "allow_all_imports", "apps", "hass_is_global"):
+        w = World({"hello.py": "x = 1\n"})
+        try:
+            entry = w.hass.config_entries.async_entries("pyscript")[0]
+            data = dict(entry.data)
+            data["_installed_packages"] = {"p": "1.0", "q": "2.0"}
+            w.hass.config_entries.async_update_entry(entry, data=data)
+            w.settle()
+            if change == "allow_all_imports":
+                w.conf["allow_all_imports"] = True
+            elif change == "apps":
+                w.conf["apps"] = {"a1": {"k": 1}}
+            elif change == "hass_is_global":
+                w.conf["hass_is_global"] = True
+            w.reload()
+            w.settle()
+            entry = w.hass.config_entries.async_entries("pyscript")[0]
+            got = entry.data.get("_installed_packages")
+            out.append((change, entry.source, got))
+            if got != {"p": "1.0", "q": "2.0"}:
+                return {"kind": "record-lost-on-yaml-import", "expected": {"p": "1.0", "q": "2.0"}, "observed": (change, entry.source, got)}, out
+        finally:
+            w.close()
+    return None, out
+
+
 # ---- plan --------------------------------------------------------------------------------------
 def bounds(tier):
     return {"merge_lines": len(P_LINES if tier == "thorough" else QUICK_LINES), "max_sequence_length": 4 if tier == "thorough" else 3,
@@ -240,7 +293,7 @@ def bounds(tier):
 
 def plan(tier, seed):
     n = 64 if tier == "thorough" else 16
-    return [("merge", tier, k, n) for k in range(n)] + [("install", tier, k, 4) for k in range(4)]
+    return [("merge", tier, k, n) for k in range(n)] + [("install", tier, k, 4) for k in range(4)] + [("entry", tier, 0, 1)]
 
 
 def run_shard(shard):
@@ -263,6 +316,12 @@ def run_shard(shard):
                     if got != exp:
                         feats = sorted({"malformed" if "notaversion" in s else "double==" if s.count("==") > 1 else "spec" if any(c in s for c in "<>,") else "plain" for s in seq if s.strip() and not s.startswith("#")})
                         res.fail("merge|" + "+".join(feats), case, expected=exp, observed=got)
+    elif kind == "entry":
+        fail, out = check_record_survives_yaml_import()
+        case = {"engine": "entry"}
+        res.case(("entry", repr(out)), nontrivial=True, transitions=4, config="config-entry", sample=case)
+        if fail:
+            res.fail(f"entry|{fail['kind']}", case, expected=fail.get("expected"), observed=fail.get("observed"))
     else:
         i = -1
         one = [[("p", r, i_, c)] for r, i_, c in itertools.product(REQ, INST, RECD)]
@@ -279,6 +338,12 @@ def run_shard(shard):
                          transitions=2, config="install", sample=case)
                 if fail:
                     res.fail(f"install|{fail['kind']}", case, expected=fail.get("expected"), observed=fail.get("observed"), detail=fail)
+                if allow:
+                    fail, obs = check_install_failure(pkgs, allow)
+                    case = {"engine": "install-fails", "pkgs": [list(p) for p in pkgs], "allow": allow}
+                    res.case(("fails", tuple(map(tuple, pkgs)), repr(obs)), nontrivial=bool(obs[0]["installer"]), transitions=2, config="install-fails", sample=case)
+                    if fail:
+                        res.fail(f"install|{fail['kind']}", case, expected=fail.get("expected"), observed=fail.get("observed"), detail=fail)
     return res
 
 
@@ -287,5 +352,11 @@ def replay(case):
         exp = oracle(case["lines"])
         got = run_merge(tuple(case["lines"]), case["dist"])
         return {"ok": got == exp, "expected": exp, "observed": got}
+    if case["engine"] == "entry":
+        fail, out = check_record_survives_yaml_import()
+        return {"ok": fail is None, "failure": fail, "observed": repr(out)}
+    if case["engine"] == "install-fails":
+        fail, obs = check_install_failure([tuple(p) for p in case["pkgs"]], case["allow"])
+        return {"ok": fail is None, "failure": fail, "observations": obs}
     fail, obs = check_install([tuple(p) for p in case["pkgs"]], case["allow"])
     return {"ok": fail is None, "failure": fail, "observations": obs}
